@@ -168,7 +168,7 @@ pub fn run(ctx: &Ctx) {
          history whose last operation is documented under '# Reverts' ends in a revert exactly there, every other history returns; non-trivial = some variable re-allocates while non-empty AND an insert/remove/splice \
          happens before the end of the content. \
          (b) one operator-table script per type (u8 u16 u32 u64 u256 U128: + - * / % & | ^ ! << >> pow sqrt log log2 wrapping_* overflowing_* comparisons min/max conversions), compiled once and run on boundary-biased \
-         operands; oracle: num-bigint reference value, or revert where overflow / division by zero is documented; non-trivial = at least one boundary operand (0 1 2 max max-1 2^k 2^k+-1 k^2 k^2-1 2^64-1, exponent at \
+         operands; oracle: num-bigint reference value, or revert where overflow / division by zero is documented; non-trivial = at least one boundary operand (0 1 2 max max-1 2^k 2^k+-1 k^2 k^2-1, 2^w-1 2^w 2^w+1 for the narrower widths w, exponent at \
          the overflow point). distinct by hash of the resolved history / of (type, op, operands)",
     );
     rep.assume("scripts are compiled in process through sway_core::{compile_to_ast, ast_to_asm, asm_to_bytecode} at O0 with std taken from the working tree (the path forc takes per package); a disagreement is re-confirmed on a stand-alone package built by forc_pkg::build_with_options before it is reported");
@@ -178,8 +178,8 @@ pub fn run(ctx: &Ctx) {
     rep.assume("U128 shifts by >= 128 are expected to give 0 (comment in the implementation: 'saturate with zeroes')");
     rep.assume("String content comes from eight fixed ASCII literals or from arbitrary bytes through from_ascii / From<Bytes> (no validation is documented)");
     let lit_cases = ctx.cases(360, 9_000);
-    let int_cases = ctx.cases(24_000, 600_000);
-    let num_cases = ctx.cases(100_000, 2_500_000);
+    let int_cases = ctx.cases(24_000, 1_500_000);
+    let num_cases = ctx.cases(100_000, 6_000_000);
     crate::spawn_watchdog("C27");
     let rejects = std::sync::Mutex::new(Vec::<Value>::new());
     let reject = |why: &str, src: &str| {
